@@ -181,6 +181,31 @@ func runC10(c *core.Ctx) {
 		})
 	}
 
+	// the fresh buffer is requested by the payload's size in bytes: len of a byte slice or a byte count, never the
+	// number of fragments of a vectored payload (the pool then hands out its smallest class and the copy runs short)
+	for _, E := range scanL {
+		core.AllInstrs(E, func(in ssa.Instruction) {
+			if !isPbytes(in, "Get") {
+				return
+			}
+			cc := core.CallCommon(in)
+			if cc == nil || len(cc.Args) == 0 {
+				return
+			}
+			c.Instance("R2")
+			size := stripConv(cc.Args[len(cc.Args)-1])
+			good, why := true, ""
+			if la, isLen := lenArg(size); isLen {
+				if sl, ok := la.Type().Underlying().(*types.Slice); ok {
+					if _, nested := sl.Elem().Underlying().(*types.Slice); nested {
+						good, why = false, "len("+la.Name()+") counts the fragments of a [][]byte, not its bytes"
+					}
+				}
+			}
+			c.Check(good, "R2", core.FName(E)+"/get/sized-in-bytes", p.InstrPos(in), "the pool buffer is requested by a byte count", "the pool buffer for the private copy is requested by the wrong quantity: "+why)
+		})
+	}
+
 	// ---- R3
 	S := r.Sender
 	c.FuncsSeen[p.QName(S)] = true
